@@ -14,6 +14,10 @@ CHECKS = {
    note='kernel/timer/console-worker are models (level-triggered epoll, explicit recv segmentation, scripted send results); Windows/poll back ends not covered',
    technique='deterministic simulation with fault injection (seeded event/fault plans, real backend loop, simulated kernel and clock)'),
 }
+CHECKS['C14'] = dict(engine='W-loop', level='exploration', design='5/C14',
+   text='seeded search over write sequences (lengths 0..8191 through tell_object/write/printf/receive, bursts beyond the 4 KiB ring, from commands and call_outs) crossed with scripted send() results (full, partial k, EWOULDBLOCK, EINTR, EPIPE, closed windows, client close) against the real add_message/flush_message/process_io; oracle: the bytes accepted for each connection are an in-order concatenation of message prefixes, a tail is lost only when the ring was full at the end of that write or the connection had failed, no CR without its LF, ring drained after the window opens. Sampling, not proof.',
+   note='send()/epoll are a model; exact byte accounting includes the driver-generated telnet negotiation and newline echo; ring capacity 4096 assumed from options.h',
+   technique='deterministic simulation with fault injection (scripted send results, seeded write workloads, byte-exact stream oracle)')
 PENDING = 'check not built yet (work in progress, see DESIGN.md section 10)'
 
 def main():
